@@ -20,6 +20,7 @@ type Engine struct {
 	w         *World
 	ts        *TermStore
 	solver    *Solver
+	cross     *Solver
 	cellCache map[types.Type]int
 	fnInfos   map[*ssa.Function]*FnInfo
 	work      []*State
